@@ -1,7 +1,8 @@
 CONSTANTS
-  Modes = {"gen", "run"}
+  Modes = {"gen", "tab", "run"}
   MaxGenTables = 2
   MaxGenRows = 3
+  MaxTabItems = 3
   MaxTheta = 2
   OmegaKinds = {"d2", "b2", "b2d1"}
   SigmaKinds = {"d1", "b2"}
